@@ -650,53 +650,77 @@ def posIdx (i : Nat) : Nat := i % LIGATURE_MAX_MATCHES
 def setPos (a : Array Nat) (i v : Nat) : M (Array Nat) :=
   if h : i < a.size then pure (a.set i v h) else throw .oob
 
+/-! The ligature transition works on the out-buffer throughout (`move_to` to every popped component, `replace_glyph`,
+    `merge_out_clusters`), so — like the insertion transition below — its body is written directly on the shared buffer
+    model (`RbModel.Buf`, namespace `LigS`) and run through the embedding once per transition. The component stack is
+    the code's own: a depth counter `matchLen` that is never capped, and a ring `matchPos` of `LIGATURE_MAX_MATCHES`
+    positions indexed by depth modulo the ring size (so only the newest 64 positions are remembered).
+    Its list semantics is `C17_ligature_stack_discipline` (Props/C17.lean). -/
+namespace LigS
+
+/-- src: buffer.rs::merge_out_clusters as the ligature code calls it: `end - start` in usize wraps for `end < start`
+    (release build) and the model gives up; otherwise the shared model's routine. -/
+def mergeOut (b : RbModel.Buf) (start end_ : Nat) : M RbModel.Buf :=
+  if b.level == 2 then pure b
+  else if end_ < start then throw .wrap
+  else liftS (b.mergeOutClusters start end_)
+
 /-- `while self.match_length - 1 > cursor { … }`: delete the later components. -/
-def ligDelete (cursor : Nat) : (fuel : Nat) → CS → Buf → M (CS × Buf)
+def ligDelete (cursor : Nat) : (fuel : Nat) → CS → RbModel.Buf → M (CS × RbModel.Buf)
   | 0, cs, b => pure (cs, b)
   | fuel + 1, cs, b => do
     if cs.matchLen == 0 then throw .wrap
     if cs.matchLen - 1 > cursor then
       let cs := { cs with matchLen := cs.matchLen - 1 }
       let p ← rdN cs.matchPos (posIdx cs.matchLen)
-      let (b, _) ← moveTo b p
-      let _ ← rd b.info b.idx          -- cur(0) / cur_mut(0): unicode props, not modelled
-      let b ← replaceGlyph b 0xFFFF
+      let (b, _) ← liftS (b.moveTo p)
+      let _ ← liftS (RbModel.Mem.get b.info b.idx)          -- cur(0) / cur_mut(0): unicode props, not modelled
+      let b ← liftS (b.replaceGlyph 0xFFFF)
       ligDelete cursor fuel cs b
     else pure (cs, b)
 
+/-- the body of `if (action & (LIG_ACTION_STORE | LIG_ACTION_LAST)) != 0 { … }` after the ligature was looked up:
+    write it over the component at the cursor, delete the components popped before it, merge the clusters. -/
+def ligStore (lig cursor : Nat) (cs : CS) (b : RbModel.Buf) : M (CS × RbModel.Buf) := do
+  let b ← liftS (b.replaceGlyph lig)
+  if cs.matchLen == 0 then throw .wrap
+  let pe ← rdN cs.matchPos (posIdx (cs.matchLen - 1))
+  let ligEnd := pe + 1
+  let (cs, b) ← ligDelete cursor cs.matchLen cs b
+  let (b, _) ← liftS (b.moveTo ligEnd)
+  let pc ← rdN cs.matchPos (posIdx cursor)
+  let b ← mergeOut b pc b.outLen
+  pure (cs, b)
+
+/-- `component_idx = (cur(0).glyph_id as i32 + offset) as u32` with the 30-bit offset sign-extended -/
+def compIdx (gid action : Nat) : Nat :=
+  let uoff := action &&& LIG_ACTION_OFFSET
+  let uoff := if uoff &&& 0x20000000 != 0 then uoff ||| 0xC0000000 else uoff
+  let off : Int := if uoff ≥ 2 ^ 31 then (uoff : Int) - 2 ^ 32 else uoff
+  let ci : Int := (gid : Int) + off
+  if ci < 0 then (ci + 2 ^ 32).toNat else ci.toNat
+
 /-- the `loop { … }` over the ligature actions; `cursor` strictly decreases. -/
-def ligLoop (t : LigTable) : (cursor : Nat) → (actionIdx ligIdx : Nat) → CS → Buf → M (CS × Buf)
+def ligLoop (t : LigTable) : (cursor : Nat) → (actionIdx ligIdx : Nat) → CS → RbModel.Buf → M (CS × RbModel.Buf)
   | 0, _, _, cs, b => pure ({ cs with matchLen := 0 }, b)     -- stack underflow
   | cursor + 1, actionIdx, ligIdx, cs, b => do
     let p ← rdN cs.matchPos (posIdx cursor)
-    let (b, _) ← moveTo b p
+    let (b, _) ← liftS (b.moveTo p)
     match t.actions actionIdx with
     | none => pure (cs, b)
     | some action =>
-      let uoff := action &&& LIG_ACTION_OFFSET
-      let uoff := if uoff &&& 0x20000000 != 0 then uoff ||| 0xC0000000 else uoff
-      let off : Int := if uoff ≥ 2 ^ 31 then (uoff : Int) - 2 ^ 32 else uoff
-      let g ← rd b.info b.idx
-      let ci : Int := (g.gid : Int) + off
-      let compIdx : Nat := if ci < 0 then (ci + 2 ^ 32).toNat else ci.toNat
-      match t.components compIdx with
+      let g ← liftS (RbModel.Mem.get b.info b.idx)
+      match t.components (compIdx g.gid action) with
       | none => pure (cs, b)
       | some comp =>
         let ligIdx := (ligIdx + comp) % 2 ^ 32      -- `ligature_idx: u32`
-        let r : Option (CS × Buf) ← (if action &&& (LIG_ACTION_STORE ||| LIG_ACTION_LAST) != 0 then do
+        let r : Option (CS × RbModel.Buf) ← (if action &&& (LIG_ACTION_STORE ||| LIG_ACTION_LAST) != 0 then do
             match t.ligatures ligIdx with
             | none => pure none
             | some lig =>
-              let b ← replaceGlyph b lig
-              if cs.matchLen == 0 then throw .wrap
-              let pe ← rdN cs.matchPos (posIdx (cs.matchLen - 1))
-              let ligEnd := pe + 1
-              let (cs, b) ← ligDelete cursor cs.matchLen cs b
-              let (b, _) ← moveTo b ligEnd
-              let pc ← rdN cs.matchPos (posIdx cursor)
-              let b ← mergeOutClusters b pc b.outLen
-              pure (some (cs, b))
-          else pure (some (cs, b)) : M (Option (CS × Buf)))
+              let r ← ligStore lig cursor cs b
+              pure (some r)
+          else pure (some (cs, b)) : M (Option (CS × RbModel.Buf)))
         match r with
         | none => pure (cs, b)     -- NB: the `break` on a missing ligature happens before replace_glyph
         | some (cs, b) =>
@@ -704,26 +728,37 @@ def ligLoop (t : LigTable) : (cursor : Nat) → (actionIdx ligIdx : Nat) → CS 
           if action &&& LIG_ACTION_LAST != 0 then pure (cs, b)
           else ligLoop t cursor actionIdx ligIdx cs b
 
-/-- the `if entry.flags & SET_COMPONENT != 0 { … }` block -/
-def ligPush (cs : CS) (b : Buf) : M CS := do
+/-- the `if entry.flags & SET_COMPONENT != 0 { … }` block (`outLen` = `buffer.out_len`) -/
+def ligPush (cs : CS) (outLen : Nat) : M CS := do
   let cs ← if cs.matchLen != 0 then do
       let p ← rdN cs.matchPos (posIdx (cs.matchLen - 1))
-      pure (if p == b.outLen then { cs with matchLen := cs.matchLen - 1 } else cs)
+      pure (if p == outLen then { cs with matchLen := cs.matchLen - 1 } else cs)
     else pure cs
-  let mp ← setPos cs.matchPos (posIdx cs.matchLen) b.outLen
+  let mp ← setPos cs.matchPos (posIdx cs.matchLen) outLen
   pure { cs with matchPos := mp, matchLen := cs.matchLen + 1 }
 
-/-- src: LigatureCtx::transition -/
-def ligTransition (t : LigTable) (cs : CS) (e : Entry) (b : Buf) : M (CS × Buf) := do
-  let cs ← if bit e.flags LIG_SET_COMPONENT then ligPush cs b else pure cs
-  if bit e.flags LIG_PERFORM_ACTION then
-    let end_ := b.outLen
-    if cs.matchLen == 0 then return (cs, b)
-    if b.idx ≥ b.len then return (cs, b)
-    let (cs, b) ← ligLoop t cs.matchLen e.x1 0 cs b
-    let (b, _) ← moveTo b end_
-    return (cs, b)
+/-- the `if entry.flags & PERFORM_ACTION != 0 { … }` block -/
+def ligPerform (t : LigTable) (cs : CS) (e : Entry) (b : RbModel.Buf) : M (CS × RbModel.Buf) := do
+  let end_ := b.outLen
+  if cs.matchLen == 0 then return (cs, b)
+  if b.idx ≥ b.len then return (cs, b)
+  let (cs, b) ← ligLoop t cs.matchLen e.x1 0 cs b
+  let (b, _) ← liftS (b.moveTo end_)
   return (cs, b)
+
+/-- src: LigatureCtx::transition -/
+def transition (t : LigTable) (cs : CS) (e : Entry) (b : RbModel.Buf) : M (CS × RbModel.Buf) := do
+  let cs ← if bit e.flags LIG_SET_COMPONENT then ligPush cs b.outLen else pure cs
+  if bit e.flags LIG_PERFORM_ACTION then ligPerform t cs e b
+  else return (cs, b)
+
+end LigS
+
+/-- src: LigatureCtx::transition -/
+def ligTransition (t : LigTable) (cs : CS) (e : Entry) (b : Buf) : M (CS × Buf) :=
+  match LigS.transition t cs e (toS b) with
+  | .ok (cs, s) => .ok (cs, ofS b s)
+  | .error p => .error p
 
 def ligCtx (t : LigTable) : Ctx where
   inPlace := false
